@@ -252,6 +252,10 @@ def render_def(name, d, prog, pkg):
             expr = ("a_" + t) if form == "alias" else t
         else:
             expr = ("aux." if td["where"] == "aux" else "mod.") + t
+        if t in prog.get("late_builtin", []):
+            # a name that is a builtin until the module defines a function of that name: written the same way before and after
+            L.append("    r.append(%s(-3))" % t)
+            continue
         if td is not None and td["kind"] == "var" or td is None:
             if td is None or t in prog.get("late", []):
                 # a symbol that is (or once was) undefined: the reference is written the same way before and after
